@@ -153,6 +153,19 @@ theorem better_end (hmono : MonotoneOn f (Set.Icc lo hi)) (hle : lo ≤ hi) (h1 
       rw [abs_of_nonpos h1]; linarith
     · rw [abs_of_nonneg h2]; linarith
 
+/-- with the convergence-limit test disabled (`conv ≤ 0`) FindRoot only returns through the tolerance test or by
+running out of iterations -/
+theorem no_conv_exit (hconv : conv ≤ 0) (hle : lo ≤ hi) (h1 : f lo ≤ 0) (h2 : 0 ≤ f hi) (hx0 : lo ≤ x0 ∧ x0 ≤ hi)
+    {r : Res ℝ} (hr : findRoot f f' x0 lo hi tol conv n = .ok r) : r.exit ≠ .conv := by
+  rw [findRoot_eq h1 h2] at hr
+  cases hr
+  exact iterate_no_conv hconv _ _ _ _ _ _ _ (init_binv hle h1 h2) (init_evals hle hx0) rfl
+
+/-- the tolerance exit means what it says -/
+theorem tol_exit (hle : lo ≤ hi) (h1 : f lo ≤ 0) (h2 : 0 ≤ f hi) (hx0 : lo ≤ x0 ∧ x0 ≤ hi)
+    {r : Res ℝ} (hr : findRoot f f' x0 lo hi tol conv n = .ok r) (hexit : r.exit = .tol) : |r.delta| < tol :=
+  (post hle h1 h2 hx0 hr).tol hexit
+
 /-- **tolerance bound.** `f` non-decreasing and `L`-Lipschitz on `[lo, hi]`, convergence-limit exit disabled
 (`conv ≤ 0`), `n ≥ 1` iterations allowed: the returned residual is below the tolerance or at most `L·(hi−lo)/2ⁿ`. -/
 theorem delta_bound (hmono : MonotoneOn f (Set.Icc lo hi)) {L : ℝ}
@@ -165,11 +178,7 @@ theorem delta_bound (hmono : MonotoneOn f (Set.Icc lo hi)) {L : ℝ}
   · exact Or.inl (p.tol hexit)
   · right
     have hfuel : r.exit = .fuel := by
-      have hnc : r.exit ≠ .conv := by
-        have hr' := hr
-        rw [findRoot_eq h1 h2] at hr'
-        cases hr'
-        exact iterate_no_conv hconv _ _ _ _ _ _ _ (init_binv hle h1 h2) (init_evals hle hx0) rfl
+      have hnc : r.exit ≠ .conv := no_conv_exit hconv hle h1 h2 hx0 hr
       cases hx : r.exit with
       | fuel => rfl
       | tol => exact absurd hx hexit
